@@ -1,7 +1,13 @@
-(* C17 - canonical output is a fixed point: the repeated-percent-decoding step of the canonicalizer.
-   Proofs in Proofs/CodecProofs.v. The whole-profile fixed point is decided on the implementation
-   (parse twice) and tied to the model by correspondence; what is proved here is the component. *)
+(* C17 - canonical output is a fixed point of its own canonicalizer.
+   First the repeated-percent-decoding component (Proofs/CodecProofs.v, DecodeOnePassProofs.v); then, at the end of
+   this file, the whole-profile fixed point for every profile without repeated decoding (Proofs/CanonIdem.v).
+   For profiles WITH repeated decoding (GoogleSafeBrowsing, Semantic, compositions) the whole-profile statement is
+   decided on the implementation (parse twice, all spellings of the web-URL grammar) and tied to the model by
+   correspondence: partial there. *)
 From Verif Require Import Lib.Base Model.Cfg Model.Canon Proofs.CodecProofs.
+From Verif Require Model.DecodeOnePass Proofs.DecodeOnePassProofs.
+From Verif Require Import Lib.Utf8 Lib.GoStr Gen.Tables Gen.Options Model.Url Model.Host Model.Machine Model.Api.
+From Verif Require Import Proofs.RecordInv Proofs.MachineInv Proofs.HostProofs Proofs.SearchParamsProofs Proofs.RoundTripBase Proofs.RoundTripHosts Proofs.CanonIdem.
 
 (* repeated decoding always terminates within its fuel and ends in a string without decodable escapes *)
 Theorem C17_repeated_decode_total : forall s, repeatedDecode s <> None.
@@ -24,3 +30,68 @@ Print Assumptions C17_decodeEncode_idempotent.
 
 Example C17_nonvacuous : decodeEncode [37;50;53;50;53;52;49;32] Gen.Tables.pes_Host = Some [65;37;50;48].
 Proof. vm_compute. reflexivity. Qed.
+
+(* the code's one-pass decoder (fix 8bd3574; Model/DecodeOnePass.v, compared with the Go function on every run) computes
+   exactly the iterated specification: escapes never overlap, so the rewriting "replace one escape by its byte" has the
+   diamond property and unique normal forms (Proofs/DecodeOnePassProofs.v) *)
+Theorem C17_onepass_is_iterated : forall s, repeatedDecode s = Some (Verif.Model.DecodeOnePass.repeatedDecode1 s).
+Proof. exact Verif.Proofs.DecodeOnePassProofs.onepass_eq_iterated. Qed.
+Print Assumptions C17_onepass_is_iterated.
+
+Theorem C17_onepass_fixed_and_idempotent : forall s,
+  c_decode (Verif.Model.DecodeOnePass.repeatedDecode1 s) = Verif.Model.DecodeOnePass.repeatedDecode1 s /\
+  Verif.Model.DecodeOnePass.repeatedDecode1 (Verif.Model.DecodeOnePass.repeatedDecode1 s) = Verif.Model.DecodeOnePass.repeatedDecode1 s /\
+  (length (Verif.Model.DecodeOnePass.repeatedDecode1 s) <= length s)%nat.
+Proof.
+  intros s. split; [exact (Verif.Proofs.DecodeOnePassProofs.repeatedDecode1_fixed s)|].
+  split; [exact (Verif.Proofs.DecodeOnePassProofs.repeatedDecode1_idempotent s)|exact (Verif.Proofs.DecodeOnePassProofs.repeatedDecode1_length s)].
+Qed.
+Print Assumptions C17_onepass_fixed_and_idempotent.
+
+(* THE WHOLE-PROFILE FIXED POINT on the model (Proofs/CanonIdem.v, on top of the round trip of C03).
+   For every profile without repeated percent-decoding and without sort-query - WhatWg, the empty profile, and every
+   combination of remove-user-info, remove-port, remove-fragment and default-scheme - and EVERY input string:
+   canonicalizing the canonical string again succeeds and returns the same string and the same components.
+   ace_residue is the oracle residue of C03 (a special host with an xn-- label is a fixed point of the host parser:
+   where the known finding D6 lives). *)
+Theorem C17_canonical_fixed_point : forall idna_raw, H3 idna_raw -> forall p,
+  cfg_okm (p_cfg p) = true -> cfg_rt (p_cfg p) = true -> p_repeated p = false ->
+  oracle_ascii_transparent idna_raw -> c_latin1 (p_cfg p) = false ->
+  forall x u s, p_sortQuery p = NoSort ->
+  ProfileParse idna_raw p x = CUrl u -> ace_residue idna_raw (p_cfg p) u -> Href u false = Some s ->
+  exists u', ProfileParse idna_raw p s = CUrl u' /\ same_components u' u /\ Href u' false = Some s.
+Proof. exact canonical_fixed_point_full. Qed.
+Print Assumptions C17_canonical_fixed_point.
+
+(* with sort-query (WhatWgSortQuery, SortKeys / SortParameter compositions): the same, provided the parameter list
+   survives the query codec (no %HH triple in a name or value - the known finding D8b otherwise, see below - and valid
+   UTF-8) and the canonical record satisfies the record invariant (automatic for non-special schemes; for special ones
+   the parameter serializer leaves "'" unescaped, CanonTotal.Canonicalize_Inv_refuted) *)
+Theorem C17_canonical_fixed_point_sort : forall idna_raw, H3 idna_raw -> forall p,
+  cfg_okm (p_cfg p) = true -> cfg_rt (p_cfg p) = true -> p_repeated p = false ->
+  oracle_ascii_transparent idna_raw -> c_latin1 (p_cfg p) = false ->
+  forall x u s, ProfileParse idna_raw p x = CUrl u -> Inv (p_cfg p) u ->
+  (forall l, u_sp u = Some l -> forallb (pair_ok (p_cfg p)) l = true) ->
+  ace_residue idna_raw (p_cfg p) u -> Href u false = Some s ->
+  exists u', ProfileParse idna_raw p s = CUrl u' /\ same_components u' u /\ Href u' false = Some s.
+Proof. exact canonical_fixed_point_sort. Qed.
+Print Assumptions C17_canonical_fixed_point_sort.
+
+(* known finding D8b as a theorem about the model: under WhatWgSortQuery http://h/?%2541=1 canonicalizes to
+   http://h/?%41=1 and that to http://h/?A=1 *)
+Theorem C17_sort_percent_triple_refuted :
+  exists u s u' s',
+    ProfileParse idna_toy prof_WhatWgSortQuery ex_d8b = CUrl u /\ Inv (p_cfg prof_WhatWgSortQuery) u /\
+    u_sp u = Some [([37;52;49], [49])] /\ forallb (pair_ok (p_cfg prof_WhatWgSortQuery)) [([37;52;49], [49])] = false /\
+    Href u false = Some s /\ s = [104;116;116;112;58;47;47;104;47;63;37;52;49;61;49] /\
+    ProfileParse idna_toy prof_WhatWgSortQuery s = CUrl u' /\ Href u' false = Some s' /\
+    s' = [104;116;116;112;58;47;47;104;47;63;65;61;49] /\ s' <> s.
+Proof. exact canonical_fixed_point_pct_refuted. Qed.
+Print Assumptions C17_sort_percent_triple_refuted.
+
+(* the premises hold for the predefined WhatWg profile and for each removal / default-scheme option *)
+Example C17_premises_met :
+  forallb (fun p => cfg_okm (p_cfg p) && cfg_rt (p_cfg p) && negb (p_repeated p)
+                    && match p_sortQuery p with NoSort => true | _ => false end)
+    [prof_WhatWg; prof_none; copt_WithRemoveUserInfo; copt_WithRemovePort; copt_WithRemoveFragment; copt_WithDefaultScheme] = true.
+Proof. exact canonical_fixed_point_profiles. Qed.
